@@ -198,8 +198,20 @@ Definition err_reply (E : env) (i : nat) (a : str) (s : option str) (name : str)
   (ERRORPREFIX ++ a, s, Some (err_data name (lo_err (e_line E i)))).
 
 (* Dispatcher.handle_request + the try/except around it in RequestHandler.handle *)
+Fixpoint prefixb (p l : str) : bool :=
+  match p, l with
+  | [], _ => true
+  | x :: p', y :: l' => (x =? y) && prefixb p' l'
+  | _, _ => false
+  end.
+(* actions that must not reach an internal handler (since bfc762a): action.startswith('_') or action == 'request' *)
+Definition is_internal (a : str) : bool := prefixb internal_prefix a || existsb (str_eqb a) internal_names.
+
 Definition dispatch (E : env) (i : nat) (m : msg) : outcome * option call :=
   let '(a, s, d) := m in
+  if negb (str_eqb a IDENTREQUEST) && is_internal a
+  then (OReply [] (err_reply E i a s (error_name_of_class internal_error_class)), None)
+  else
   let '(a', s', d') := if str_eqb a IDENTREQUEST then (ident_alias, None, None) else (a, s, d) in
   match find_handler a' with
   | None => (OReply [] (err_reply E i a s (error_name_of_class unhandled_error_class)), None)
